@@ -197,6 +197,10 @@ def _structural_perturbations(rnd, meta):
     dts = [d for d in meta["dims"] if d["type"] == "DATETIME" and d["raw_idx"] >= 0]
     if dts and rnd.random() < 0.5:
         out.append(["resolution", rnd.choice(dts)["raw_idx"], rnd.choice(["2M", "6M", "3M", "Q", "2W", "15m", "2Y", "10s"])])
+    if dts and rnd.random() < 0.4:
+        d = rnd.choice(dts)
+        if d["elements"]:
+            out.append(["bad_datetime", d["raw_idx"], rnd.randrange(len(d["elements"]))])
     nums = [m for m in ("mean", "sum", "stddev", "median") if m.upper() in meta["measures"]]
     if nums and rnd.random() < 0.25:
         out.append(["infinity", rnd.choice(nums), rnd.randrange(64), rnd.choice([1, -1])])
@@ -280,7 +284,7 @@ def generate(run_seed, tier_cfg):
     if knobs["mode"] == "sweep":
         knobs["max_steps"] = rnd.choice(tier_cfg.get("sweep_steps", [150, 220]))
     fault_free = rnd.random() < tier_cfg.get("fault_free_share", 0.25)
-    all_faults = ["F1", "F2", "F3", "F4", "F5", "F6"]
+    all_faults = ["F1", "F2", "F3", "F4", "F5", "F6", "F7", "F8"]
     knobs["ambient_rate"] = rnd.choice([0.02, 0.05, 0.12])
     if fault_free:
         faults = []
@@ -301,7 +305,19 @@ def generate(run_seed, tier_cfg):
     args, specs = {}, {}
     scal = _scalars(rnd)
 
-    if topo in ("T1", "T2", "T7"):
+    if topo in ("T1", "T2") and rnd.random() < 0.03:
+        # a table far larger than any fixture (>= 4096 cells per slice), plain payload order
+        big = {"n": rnd.choice([64, 72]), "m": 64, "k": rnd.choice([0, 0, 2]),
+               "weighted": rnd.random() < 0.5, "seed": rnd.randrange(1000)}
+        args["r0"] = {"kind": "response", "synthetic": ["big_cat_x_cat", big], "form": "asis"}
+        args["t0"] = {"kind": "transforms", "json": "{}"}
+        specs["s0"] = _cube_spec(rnd, "r0", "t0", scal)
+        if rnd.random() < 0.5:
+            args["r1"] = {"kind": "response", "synthetic": ["big_cat_x_cat", dict(big, seed=big["seed"] + 1, k=0)], "form": "asis"}
+            specs["s1"] = {"type": "cubeset", "members": [["r0", "t0"], ["r1", "t0"]], **scal}
+        knobs["max_steps"] = min(knobs["max_steps"], 24)
+        knobs["mode"] = "mixed"
+    elif topo in ("T1", "T2", "T7"):
         name = _pick_corpus(rnd, knobs, "nd3" if (topo == "T1" and rnd.random() < 0.5) else None)
         args["r0"] = _response_arg(rnd, knobs, name)
         meta = _meta_for(args["r0"])
@@ -552,6 +568,14 @@ def generate(run_seed, tier_cfg):
                 specs["s5"] = _cube_spec(rnd, "r0", "t5", scal)
     else:
         raise AssertionError(topo)
+
+    # a population handed over as a numpy value, one object for every table of the session
+    if rnd.random() < 0.06:
+        val = rnd.choice([1000.0, 9001.5, 250000.0])
+        args["p0"] = {"kind": "nparray", "value": val, "shape": rnd.choice(["0d", "0d", "1"])}
+        for sid in sorted(specs):
+            if rnd.random() < 0.8:
+                specs[sid]["population"] = {"arg": "p0"}
 
     # unrelated tables that happen to share an identifier: an array variable of one response
     # gets the alias of an array variable of another (think: two datasets, both with "pets")
